@@ -236,7 +236,7 @@ type hsys struct {
 func (s *hsys) Close() {}
 func (s *hsys) Key() string {
 	_, dn := s.r.p.Flags()
-	return fmt.Sprintf("%v/%v", dn, s.st.Down)
+	return fmt.Sprintf("%v/%v/%v", dn, s.st.Down, s.st.Held)
 }
 func (s *hsys) Apply(i int) (string, string) {
 	o := s.ops[i]
